@@ -4,6 +4,9 @@
 id=$1; shift
 d=/verif/seeded/$id
 git -C /repo diff --quiet || { echo "/repo is not clean"; exit 2; }
+# start from the state a developer starts from: model and drivers regenerated from the CLEAN tree (when the translator refuses the changed
+# source, the search runs against the last model that could be generated)
+/verif/bin/check regen > /dev/null 2>&1
 git -C /repo apply $d/patch.diff || exit 2
 # evidence written while /repo is patched must not stay in the tree
 bk=$(mktemp -d /tmp/evidence_bk.XXXXXX); cp -a /verif/evidence/. $bk/
